@@ -16,7 +16,9 @@ Describe(x) ==
         rows |-> [i \in 1..n |-> [o |-> R[i].o, k |-> R[i].k, c |-> cls[i]]],
         det |-> Deterministic(R, cls, x.lim, x.off),
         ans |-> Answer(x),
-        proj |-> IF x.dist /\ x.src = "plain" THEN Projection(x, x.keys) ELSE << >>,   \* the rows before DISTINCT (for a named deviation)
+        \* for the named deviations: the rows before DISTINCT; the join rows in the order the implementation produces them
+        proj |-> IF x.dist /\ x.src = "plain" THEN Projection(x, x.keys)
+                 ELSE IF x.src = "join" THEN ProjectionB(JoinProd(Tab(x.tab)), x, x.keys, x.sel) ELSE << >>,
         nullkey |-> HasNullKey(R),
         unproj |-> \E i \in 1..Len(x.keys) : ~Projected(x.keys[i], x.sel)]
 Emit == q'.src # "none" => PrintT(<<"T", ToJson(Describe(q'))>>)
